@@ -206,6 +206,34 @@ def heldCoef : List (Nat × Int) → Nat → Int
   | [], _ => 0
   | (w, d) :: m, k => if m.any (fun t => t.1 == k) then heldCoef m k else if w = k then d else 0
 
+
+/-! ### The calls the ModelAPI receives
+
+Coefficients are integers here, i.e. **exact arithmetic**.  In the code they are `double`s and `var_coef_map[v] += c` rounds,
+so the merged coefficient of a variable with three or more entries can depend on the order of the entries; the theorems below
+are about exact sums (the correspondence uses dyadic rationals of small height, for which `double` addition is exact).
+
+The expression visitor is not modelled: what flattening an expression token contributes to the linear part (its linear terms
+and, for a non-zero constant, the term `1 * fixed_var`) is an abstract input `Flat`. -/
+
+structure Flat where
+  lin : Nat → List (Nat × Int)        -- linear terms produced by flattening expression token `nl`
+  cv : Nat → Option (Nat × Int)       -- `(fixed variable, 1)` when the expression's constant is non-zero
+
+/-- one `Set{Linear,Quadratic}Objective(i, …)` call as far as this model goes: sense, expression token (its quadratic part and
+    auxiliary constraints are outside the model), and the sparse linear vector -/
+structure SolverObj where
+  isMax : Bool
+  nl : Nat
+  lin : List (Nat × Int)
+deriving DecidableEq, Repr
+
+/-- `ProblemFlattener::Convert(MutObjective)` on one problem objective -/
+def toSolver (F : Flat) (o : Obj) : SolverObj := ⟨o.isMax, o.nl, deliveredLin o.lin (F.lin o.nl) (F.cv o.nl)⟩
+
+/-- what the solver receives: every problem objective, in order, through `Convert(MutObjective)` (position = index) -/
+def received (F : Flat) (st : St) : List SolverObj := (delivered st).map (toSolver F)
+
 /-! ## Reference reading of the file (specification side)
 
 `fileObj segs i` is what the file says about objective `i`, read *per index* and
